@@ -39,6 +39,8 @@ def run(ctx):
     ctx.do(rule_key_order)
     ctx.do(rule_escapes)
     ctx.do(rule_number_constants)
+    from .hidden_state import rule_no_hidden_state
+    ctx.do(rule_no_hidden_state, "C16.history-independence")
 
 
 def _value_table(stmts, var):
